@@ -423,7 +423,21 @@ struct Checker {
     BuildValue moved(std::move(copy));
     if (moved.toData() != data) fail("C15.value-reencode." + kn, d, "encoding a moved copy gives different bytes", bytes);
     if (encode(d) != bytes) fail("C15.value-reencode." + kn, d, "building the same value twice gives different bytes", bytes);
+    // object history: the value decoded INTO a variable that already holds another value (move assignment, the way the
+    // build system refills `directoryValue` / `priorValue`) - previous occupants: the last value seen of every kind
+    for (auto& prev : lastOfKind) {
+      BuildValue slot = BuildValue::fromData(prev.second);
+      slot = BuildValue::fromData(data);
+      ++accessorChecks;
+      if (slot.toData() != data) {
+        fail("C15.value-reencode-after-assignment." + kn, d, std::string("decoded into a variable that held a ") + valueKindName((VK)prev.first) +
+             " value, the value encodes as " + hexs(std::string((const char*)slot.toData().data(), slot.toData().size()).substr(0, 64)), bytes);
+        break;
+      }
+    }
+    lastOfKind[(int)kind] = data;
   }
+  std::map<int, core::ValueType> lastOfKind;
 
   void operator()(const Desc& d) {
     if (stop) return;
